@@ -4,16 +4,16 @@ package leveldb
 
 import (
 	"github.com/syndtr/goleveldb/leveldb"
-	"github.com/syndtr/goleveldb/leveldb/opt"
 	"github.com/syndtr/goleveldb/leveldb/storage"
 )
 
 // VerifNewMemLevelDB returns the production GoLevelDB wrapper over goleveldb's
-// in-memory storage: same code paths as the on-disk backend, no files.  The write
-// buffer is 64 KiB instead of goleveldb's 4 MiB default: a check creates thousands of
-// nodes per process and each keeps its buffer for as long as the node's idle goroutines live.
+// in-memory storage: same code paths as the on-disk backend, no files.  Options are
+// goleveldb's defaults, as in production (a smaller write buffer was tried to save memory and made
+// goleveldb's large-batch transaction path misbehave: "keys are not in increasing order", stale keys
+// after a delete-all batch); memory is released by closing the database of a finished case instead.
 func VerifNewMemLevelDB() *GoLevelDB {
-	db, err := leveldb.Open(storage.NewMemStorage(), &opt.Options{WriteBuffer: 64 << 10})
+	db, err := leveldb.Open(storage.NewMemStorage(), nil)
 	if err != nil {
 		panic(err)
 	}
